@@ -59,7 +59,7 @@ where
             } else if rba != oracle_rel(fb, fa, eps, rel) {
                 m.violation("relative_eq not symmetric", || w("relative_eq(b,a)", rba, rab));
             }
-            if eq && fa.iter().all(|x| x.is_finite()) && !(ab && rab) {
+            if eq && fa.iter().chain(fb.iter()).all(|x| x.is_finite()) && !(ab && rab) {
                 m.violation("== does not imply approximate equality", || w("==", ab && rab, true));
             }
             if exp_abs {
@@ -120,6 +120,9 @@ where
             compare(m, T::NAME, kind, pos as i64, &a, &b, &base, &bn, eps, rel);
         }
     }
+    // the very same object on both sides (an identity shortcut must not change the answer: NaN / inf contents)
+    m.count("same_object_compared");
+    compare(m, T::NAME, "same_object", -3, &a, &a, &base, &base, eps, rel);
     // random pair
     let other: Vec<f64> = (0..T::LEN).map(|_| value(r)).collect();
     compare(m, T::NAME, "random", -1, &a, &T::from_nums(&other), &base, &other, eps, rel);
@@ -154,6 +157,8 @@ where
         m.count(&format!("position:Piecewise<{}>:seg{}:field{}", T::NAME, (pos / (T::LEN + 1)).min(3), pos % (T::LEN + 1)));
         compare(m, "Piecewise", kind, pos as i64, &pa, &pb, &fa, &fb, eps, rel);
     }
+    compare(m, "Piecewise", "same_object", -3, &pa, &pa, &fa, &fa, eps, rel);
+    compare(m, "Segment", "same_object", -3, &sa, &sa, &sa.nums(), &sa.nums(), eps, rel);
     // different numbers of pieces: never approximately equal
     let mut pb = pa.clone();
     if r.chance(0.5) || pb.segments.len() == 1 {
@@ -178,6 +183,14 @@ fn polyn(m: &mut Mon, r: &mut Rng) {
     m.case(hash_bits(171, base.iter().map(|e| e.to_bits()).chain([eps.to_bits(), rel.to_bits()])));
     let a = PolyN(base.clone());
     compare(m, "PolyN", "same", -1, &a, &PolyN(base.clone()), &base, &base, eps, rel);
+    // different lengths: never approximately equal (slice semantics), and therefore `==` must not hold either
+    let mut longer = base.clone();
+    longer.push(if r.chance(0.7) { 0.0 } else { -0.0 });
+    m.count("polyn_different_lengths");
+    compare(m, "PolyN", "trailing_zero_appended", -2, &a, &PolyN(longer.clone()), &base, &longer, eps, rel);
+    compare(m, "PolyN", "trailing_zero_appended", -2, &a, &PolyN(longer.clone()), &base, &longer, 1e300, 1.0);
+    m.count("same_object_compared");
+    compare(m, "PolyN", "same_object", -3, &a, &a, &base, &base, eps, rel);
     for pos in 0..len {
         let (nv, kind) = r.pick(&perturbations(base[pos], eps.max(rel * base[pos].abs())));
         let mut bn = base.clone();
@@ -196,7 +209,7 @@ pub fn canaries(m: &mut Mon) {
 }
 
 pub const FLOORS: &[&str] = &[
-    "abs_true", "abs_false", "rel_true", "rel_false", "piecewise_different_lengths",
+    "abs_true", "abs_false", "rel_true", "rel_false", "piecewise_different_lengths", "polyn_different_lengths", "same_object_compared",
     "type:PolyN", "type:Poly0", "type:Poly8", "type:Log<Poly4>", "type:IntOfLog<Poly3>", "type:IntOfLogPoly4", "type:Segment", "type:Piecewise",
     "position:IntOfLogPoly4:5", "position:IntOfLog<Poly8>:0", "position:IntOfLog<Poly8>:9", "position:Poly8:8", "position:Segment<Poly3>:0", "position:Log<Poly7>:7",
 ];
